@@ -94,7 +94,7 @@ class PersistentThreadWorker(PersistentWorker, ThreadWorker):
         if self._cleaned_up:
             return
 
-        self._results_pipe.child_end.put((self._counter, False, None, self.id))
+        self._results_pipe.child_end.put((getattr(self, '_counter', 0), False, None, self.id))
         if hasattr(self._results_pipe.child_end, 'close'):
             logger.debug('Closing child\'s pipe end')
             self._results_pipe.child_end.close()
